@@ -53,6 +53,7 @@ type Trial struct {
 	ES     bool              `json:"es"`
 	Obs    bool              `json:"obs"`
 	Done   bool              `json:"done"` // Succeeded (otherwise Running) when neither MU nor ES
+	Failed bool              `json:"failed"` // Failed, without observation
 }
 type Input struct {
 	Exps   []Exp   `json:"exps"`
@@ -69,7 +70,7 @@ func (c09) CoqModule() string { return "C09" }
 func (c09) Rule() string {
 	return "clusters of 2-4 experiments over 2 namespaces and 2 names (equal names in different namespaces, equal labels across experiments, " +
 		"experiments with extra labels), 0-6 trials each built like getTrialInstance does (util.TrialLabels(owner) plus algorithm labels on other keys), " +
-		"in states running / succeeded / metrics-unavailable / early-stopped with or without observation; the REAL suggestion reconciler runs for one " +
+		"in states running / succeeded / failed / metrics-unavailable / early-stopped with or without observation; some experiments carry another experiment's name under the experiment-name label key; the REAL suggestion reconciler runs for one " +
 		"experiment's suggestion with requests > suggestionCount; the requests seen by the fake algorithm and early-stopping services are the observation. " +
 		"Non-trivial: another experiment shares the target's name or a label and has trials, and the target has a skipped trial. Distinct: by the cluster."
 }
@@ -96,7 +97,11 @@ func (c09) Gen(r *rand.Rand, i, n int) any {
 		}
 		used[ns+"/"+nm] = true
 		e := Exp{NS: ns, Name: nm, Labels: map[string]string{}, ES: r.Intn(2) == 0, Extra: 1 + r.Intn(3)}
-		switch r.Intn(4) {
+		switch r.Intn(5) {
+		case 4:
+			// an experiment that itself carries the experiment-name label of another experiment
+			e.Labels[consts.LabelExperimentName] = kit.Pick(r, names)
+			e.Labels["team"] = "a"
 		case 0:
 			e.Labels["team"] = shared["team"]
 		case 1:
@@ -123,6 +128,8 @@ func (c09) Gen(r *rand.Rand, i, n int) any {
 				t.Obs = r.Intn(2) == 0
 			case 2, 3:
 				t.Done, t.Obs = true, true
+			case 4:
+				t.Failed = true
 			}
 			in.Trials = append(in.Trials, t)
 		}
@@ -252,6 +259,9 @@ func (c09) Run(input any) kit.Case {
 		}
 		if t.Done && !t.MU && !t.ES {
 			tr.Status.Conditions = append(tr.Status.Conditions, cond(trialsv1beta1.TrialSucceeded))
+		}
+		if t.Failed && !t.MU && !t.ES {
+			tr.Status.Conditions = append(tr.Status.Conditions, cond(trialsv1beta1.TrialFailed))
 		}
 		if t.Obs {
 			tr.Status.Observation = &commonv1beta1.Observation{Metrics: []commonv1beta1.Metric{{Name: "acc", Min: "0.5", Max: "0.5", Latest: "0.5"}}}
